@@ -328,6 +328,57 @@ def inline_async_call(F, fn, bi, cid, cf):
     return True
 
 
+def _propagate_consts(fn, first_new):
+    """a local introduced by the splice (index >= first_new) whose only definition is `X = const` is replaced by the constant where
+    it is read as a whole (a flag / status argument of a dissolved helper is a constant again at its uses)"""
+    for _ in range(3):
+        defs = {}
+        for b in fn["blocks"]:
+            for st in b["stmts"]:
+                if st["k"] == "assign":
+                    defs.setdefault(st["lhs"]["l"], []).append(st)
+            t = b["term"]
+            if t["k"] == "call":
+                defs.setdefault(t["dest"]["l"], []).append(None)
+            elif t["k"] == "yield" and isinstance(t.get("resume_arg"), dict):
+                defs.setdefault(t["resume_arg"]["l"], []).append(None)
+        consts = {}
+        for l, ds in defs.items():
+            if l >= first_new and len(ds) == 1 and ds[0] is not None and not ds[0]["lhs"]["p"] and ds[0]["rv"]["k"] == "use" \
+                    and ds[0]["rv"]["o"].get("k") == "const" and "promoted" not in ds[0]["rv"]["o"]:
+                consts[l] = ds[0]["rv"]["o"]
+        if not consts:
+            return
+        changed = [False]
+
+        def sub(o):
+            if isinstance(o, dict) and o.get("k") in ("copy", "move") and not o["p"]["p"] and o["p"]["l"] in consts:
+                changed[0] = True
+                return dict(consts[o["p"]["l"]])
+            return o
+        for b in fn["blocks"]:
+            for st in b["stmts"]:
+                if st["k"] != "assign":
+                    continue
+                rv = st["rv"]
+                if rv["k"] in ("use", "cast", "repeat"):
+                    if not (rv["k"] == "use" and st["lhs"]["l"] in consts and not st["lhs"]["p"]):
+                        rv["o"] = sub(rv["o"])
+                elif rv["k"] == "agg":
+                    rv["ops"] = [sub(o) for o in rv["ops"]]
+                elif rv["k"] == "bin":
+                    rv["a"], rv["b"] = sub(rv["a"]), sub(rv["b"])
+                elif rv["k"] == "un":
+                    rv["a"] = sub(rv["a"])
+            t = b["term"]
+            if t["k"] == "call":
+                t["args"] = [sub(a) for a in t["args"]]
+            elif t["k"] == "switch":
+                t["d"] = sub(t["d"])
+        if not changed[0]:
+            return
+
+
 def _devirtualise(F, fn):
     """after arguments are bound, a call through a local that can only hold one function item is a call of that function"""
     B = mir.Body(fn, F)
@@ -406,6 +457,7 @@ def inline_new_helpers(F, known, crates, keep=None):
             if not hit:
                 continue
             cur = fn
+            n_locals0 = fn.get("_locals0", len(fn["locals"]))
             if any(not F.fns[c].get("is_async") for _, c in hit):
                 cur, done = inline_calls(F, cur, sync_pred, max_rounds=1)
                 for c in done:
@@ -420,6 +472,8 @@ def inline_new_helpers(F, known, crates, keep=None):
                         rep["inlined"].append((fid, c))
                         changed = True
             cur["crate"] = fn.get("crate")
+            cur["_locals0"] = n_locals0
+            _propagate_consts(cur, n_locals0)
             _devirtualise(F, cur)
             F.fns[fid] = cur
         if not changed:
